@@ -1,8 +1,9 @@
 //! C17, Miri layer: real std threads under Miri's seeded pre-emptive scheduler
 //! (`-Zmiri-many-seeds`), i.e. interleavings at basic-block granularity plus
 //! data-race / UB detection that the baton scheduler cannot give.
-//! Three threads start together; two are replicas decoding the same Sorenson
-//! history, the third decodes a standard-mode history (first, concurrent use
+//! Four threads start together; two are replicas decoding the same Sorenson
+//! history, the third decodes a standard-mode history, the fourth drives a
+//! stream and its content-only sibling alternately on one thread (first, concurrent use
 //! of the lazily initialised option masks happens on non-main threads).
 //! Afterwards the main thread decodes the same histories sequentially and all
 //! digests must agree.
@@ -57,8 +58,34 @@ fn run(opts: DecoderOption, pics: &[&[u8]]) -> u64 {
     h
 }
 
+/// Two decoders driven alternately, call by call, on ONE thread.
+fn run_pair(a: &[&[u8]], b: &[&[u8]]) -> (u64, u64) {
+    let mut sa = H263State::new(DecoderOption::SORENSON_SPARK_BITSTREAM);
+    let mut sb = H263State::new(DecoderOption::SORENSON_SPARK_BITSTREAM);
+    let (mut ha, mut hb) = (0xcbf2_9ce4_8422_2325u64, 0xcbf2_9ce4_8422_2325u64);
+    for i in 0..a.len().max(b.len()) {
+        for (st, pics, h) in [(&mut sa, a, &mut ha), (&mut sb, b, &mut hb)] {
+            if let Some(p) = pics.get(i) {
+                let mut r = H263Reader::from_source(Src { data: p.to_vec(), pos: 0 });
+                match st.decode_next_picture(&mut r) {
+                    Ok(()) => fnv(h, b"ok"),
+                    Err(e) => fnv(h, format!("{e:?}").as_bytes()),
+                }
+                if let Some(lp) = st.get_last_picture() {
+                    let (y, cb, cr) = lp.as_yuv();
+                    fnv(h, y);
+                    fnv(h, cb);
+                    fnv(h, cr);
+                    fnv(h, format!("{:?}", lp.as_header()).as_bytes());
+                }
+            }
+        }
+    }
+    (ha, hb)
+}
+
 fn main() {
-    let barrier = Arc::new(Barrier::new(3));
+    let barrier = Arc::new(Barrier::new(4));
     let mut hs = Vec::new();
     for t in 0..3 {
         let b = barrier.clone();
@@ -71,11 +98,22 @@ fn main() {
             }
         }));
     }
+    // a fourth thread owns two instances: a stream and its content-only sibling
+    let b4 = barrier.clone();
+    let pair = std::thread::spawn(move || {
+        b4.wait();
+        run_pair(scenario::SORENSON, scenario::SORENSON_SIBLING)
+    });
     let got: Vec<u64> = hs.into_iter().map(|h| h.join().expect("decoder thread panicked")).collect();
+    let (pa, pb) = pair.join().expect("pair thread panicked");
     let alone_s = run(DecoderOption::SORENSON_SPARK_BITSTREAM, scenario::SORENSON);
+    let alone_sib = run(DecoderOption::SORENSON_SPARK_BITSTREAM, scenario::SORENSON_SIBLING);
     let alone_p = run(DecoderOption::empty(), scenario::STANDARD);
     assert_eq!(got[0], got[1], "C17: replicas on two threads disagree");
     assert_eq!(got[0], alone_s, "C17: threaded Sorenson history differs from the sequential one");
     assert_eq!(got[2], alone_p, "C17: threaded standard-mode history differs from the sequential one");
-    println!("c17-miri ok {:016x} {:016x}", alone_s, alone_p);
+    assert_eq!(pa, alone_s, "C17: instance interleaved with its sibling on one thread differs from running alone");
+    assert_eq!(pb, alone_sib, "C17: sibling interleaved on one thread differs from running alone");
+    assert_ne!(alone_s, alone_sib, "harness: the sibling must differ in content");
+    println!("c17-miri ok {:016x} {:016x} {:016x}", alone_s, alone_sib, alone_p);
 }
